@@ -119,19 +119,7 @@ def _list_of_symset(ss):
     """list(set) (was OUT-OF-REACH: iteration over a symbolic set): a free-standing snapshot of the set.
     `for k in list(s)` under a loop contract then enumerates the snapshot in arbitrary order (set mode);
     membership and len() work; indexing the result is not modelled (engine error -> OUT-OF-REACH)."""
-    return ss.copy()
-    c = _c()    # (sequence model kept for reference; its quantified axioms made z3 answer `unknown`)
-    ety = ss._ty.elem
-    sq = c.fresh("setlist", z3.SeqSort(ety.sort()))
-    ss._ty.assume_wf(ss.term)
-    c.assume(z3.Length(sq) == ss._ty.dt.size(ss.term))
-    i, j = c.fresh("li", z3.IntSort()), c.fresh("lj", z3.IntSort())
-    c.assume(z3.ForAll([i, j], z3.Implies(z3.And(0 <= i, i < j, j < z3.Length(sq)), sq[i] != sq[j])))
-    k = c.fresh("lk", ety.sort())
-    c.assume(z3.ForAll([k], z3.Select(ss._ty.dt.dom(ss.term), k) == z3.Contains(sq, z3.Unit(k))))
-    i2 = c.fresh("li2", z3.IntSort())
-    c.assume(z3.ForAll([i2], z3.Implies(z3.And(0 <= i2, i2 < z3.Length(sq)), z3.Select(ss._ty.dt.dom(ss.term), sq[i2]))))
-    return SymList(Box(sq), ety)
+    return ss.copy()        # (a z3 sequence with quantified "same elements" axioms made the solver answer `unknown`)
 
 
 class dict_(dict, metaclass=_Meta):
@@ -225,6 +213,8 @@ def _arbitrary_member(it, key, default):
     """min/max(<dict or list of symbolic size>, key=f) (was OUT-OF-REACH): over-approximated by an ARBITRARY
     member (sound for every clause that does not depend on which member is extremal); f runs once on it, so
     an exception f can raise on some member is still explored.  Returns _NO when not applicable."""
+    if not _ctx.active():
+        return _NO          # native execution (bounded stand-ins, replay): plain min/max
     c = _c()
     if _b.isinstance(it, SymDict) and not (it._ty.ordered and z3.is_int_value(z3.simplify(it._ty.dt.size(it.term)))):
         it._ty.assume_wf(it.term)
